@@ -134,6 +134,9 @@ func (e *env) serveConn(tag string, wire []byte, f sim.Faults, idx int) *sim.Del
 		hdrEnd := bytes.Index(wire, []byte("\r\n\r\n"))
 		if f.ReqResetInBody && hdrEnd >= 0 && hdrEnd+4 < len(wire) {
 			c2s.Limit = hdrEnd + 4 + rng.IntN(len(wire)-hdrEnd-4)
+			if rng.IntN(5) == 0 {
+				c2s.Limit = hdrEnd + 4 // the head arrives, not a single body byte does
+			}
 		} else {
 			c2s.Limit = rng.IntN(len(wire))
 		}
@@ -214,7 +217,16 @@ func (e *env) exchange(tag string, wire []byte, rp *ReqPlan, o *ReqObs, req *htt
 	s2c := &sim.Conn{S: e.s, Data: respWire, Limit: -1, ErrWithData: f.ErrWithData}
 	s2c.Cuts = sim.CutsFor(f.RespCutMode, len(respWire), rng)
 	if f.RespTruncate && len(respWire) > 0 {
-		s2c.Limit = rng.IntN(len(respWire))
+		// a quarter anywhere, a quarter exactly after the head (no body byte arrives), half inside the body
+		he := bytes.Index(respWire, []byte("\r\n\r\n"))
+		switch k := rng.IntN(4); {
+		case he < 0 || k == 0 || he+4 >= len(respWire):
+			s2c.Limit = rng.IntN(len(respWire))
+		case k == 1:
+			s2c.Limit = he + 4
+		default:
+			s2c.Limit = he + 4 + rng.IntN(len(respWire)-he-4)
+		}
 		e.s.Probes["response_truncated"]++
 	}
 	if req == nil {
@@ -225,8 +237,12 @@ func (e *env) exchange(tag string, wire []byte, rp *ReqPlan, o *ReqObs, req *htt
 	}
 	resp, err := http.ReadResponse(bufio.NewReader(s2c), req)
 	if err != nil {
+		if s2c.ResetHit {
+			e.s.Probes["response_truncation_hit_in_head"]++
+		}
 		return nil, fmt.Errorf("transport: read response: %w", err)
 	}
+	resp.Body = &probeBody{ReadCloser: resp.Body, c: s2c, e: e}
 	return resp, nil
 }
 
@@ -260,6 +276,7 @@ func BuildResponse(p *Pkg, rp *ReqPlan, failRaw bool) (reflect.Value, reflect.Ty
 		if failRaw && f.Kind() == reflect.Interface && !f.IsNil() {
 			if tr, ok := f.Interface().(*values.TagReader); ok && len(tr.Data) > 0 {
 				tr.FailAfter = frng(rp.RespSeed, 4).IntN(len(tr.Data))
+				tr.OnFail = func() { RawSourceFailures++ }
 			}
 		}
 	}
@@ -548,10 +565,38 @@ func Exec(p *Pkg, plan *RunPlan, t *tape.Tape, logOn bool) *RunResult {
 	if res.Err != nil {
 		res.Blocked = s.Blocked()
 	}
+	if RawSourceFailures > 0 {
+		s.Probes["raw_response_source_failed_mid_copy"] += RawSourceFailures
+		RawSourceFailures = 0
+	}
 	res.Steps, res.Switches, res.SwitchHash, res.Probes, res.Pairs = s.Steps, s.Switches, s.SwitchHash, s.Probes, len(s.Pairs)
 	PairSink(s.Pairs)
 	return res
 }
+
+// probeBody counts what actually happened to a response stream by the time the caller is done with it.
+type probeBody struct {
+	io.ReadCloser
+	c    *sim.Conn
+	e    *env
+	done bool
+}
+
+func (b *probeBody) Close() error {
+	if !b.done {
+		b.done = true
+		if b.c.Segments > 1 {
+			b.e.s.Probes["response_delivered_in_segments"]++
+		}
+		if b.c.ResetHit {
+			b.e.s.Probes["response_truncation_hit_in_body"]++
+		}
+	}
+	return b.ReadCloser.Close()
+}
+
+// RawSourceFailures counts handler-supplied raw response bodies that really failed mid-copy.
+var RawSourceFailures int
 
 // PairSink receives the overlap pairs of every run (set by the worker for coverage accounting).
 var PairSink = func(map[uint64]struct{}) {}
